@@ -296,7 +296,7 @@ Spec == Init /\ [][Next]_vars
 \* (after a shutdown report the requests parsed in that call are lost with their in-flight counts:
 \*  the accounting invariant is not claimed beyond that point)
 SrvInv == dead \/ (CapOK(S) /\ TokenOK(S) /\ (S.res = "shutdown" \/ InflOK(S)) /\ InterestOK(S) /\ S.res # "err"
-                   /\ FilesOwnedOK(S) /\ FilesOnceOK(S))
+                   /\ FilesOwnedOK(S) /\ FilesOnceOK(S) /\ ClosedNoOutput(S))
 
 Accepted ==
     LET d == TLCGet("stats").diameter IN
